@@ -69,24 +69,25 @@ type c09Call struct {
 }
 
 type c09Case struct {
-	Kind      string       `json:"kind"`          // pregel|dag|workflow|chain|nested|checkpoint|react|host|wfstraggler|optshare|toollist|cbshare|inflight|errpath
-	Opt       *c09OptShare `json:"opt,omitempty"` // optshare (c09_opts.go)
-	TL        *c09ToolList `json:"tl,omitempty"`  // toollist (c09_opts.go)
-	Err       *c09ErrPath  `json:"err,omitempty"` // errpath (c09_errs.go)
-	CBS       *c09CBShare  `json:"cbs,omitempty"` // cbshare (c09_cbs.go)
-	FL        *c09Flight   `json:"fl,omitempty"`  // inflight (c09_flight.go)
-	Layers    []c09Layer   `json:"layers,omitempty"`
-	NestFrom  int          `json:"nestFrom,omitempty"` // nested: layers[NestFrom:NestTo] form the inner graph
-	NestTo    int          `json:"nestTo,omitempty"`
-	IntLayer  int          `json:"intLayer,omitempty"` // checkpoint: interrupt before the first node of this layer
-	Calls     []c09Call    `json:"calls"`
-	Reps      int          `json:"reps"`
-	SharedOpt bool         `json:"sharedOpt,omitempty"` // one option slice value shared by all callers
-	ParentCB  bool         `json:"parentCB,omitempty"`  // callers derive their ctx from one parent ctx that carries a handler
-	ParentCap int          `json:"parentCap,omitempty"` // parentCB: number of handlers in the parent ctx, passed as a slice built with append (so it may have spare capacity)
-	Par       int          `json:"par,omitempty"`       // wfstraggler: number of parallel nodes (2|3)
-	Sched     []int        `json:"sched,omitempty"`     // interleaving given to the model
-	Seed      uint64       `json:"seed"`
+	Kind      string        `json:"kind"`          // pregel|dag|workflow|chain|nested|checkpoint|react|host|wfstraggler|optshare|toollist|cbshare|inflight|errpath
+	Opt       *c09OptShare  `json:"opt,omitempty"` // optshare (c09_opts.go)
+	TL        *c09ToolList  `json:"tl,omitempty"`  // toollist (c09_opts.go)
+	Err       *c09ErrPath   `json:"err,omitempty"` // errpath (c09_errs.go)
+	CBS       *c09CBShare   `json:"cbs,omitempty"` // cbshare (c09_cbs.go)
+	FL        *c09Flight    `json:"fl,omitempty"`  // inflight (c09_flight.go)
+	BM        *c09BranchMix `json:"bm,omitempty"`  // branchmix (c09_branch.go)
+	Layers    []c09Layer    `json:"layers,omitempty"`
+	NestFrom  int           `json:"nestFrom,omitempty"` // nested: layers[NestFrom:NestTo] form the inner graph
+	NestTo    int           `json:"nestTo,omitempty"`
+	IntLayer  int           `json:"intLayer,omitempty"` // checkpoint: interrupt before the first node of this layer
+	Calls     []c09Call     `json:"calls"`
+	Reps      int           `json:"reps"`
+	SharedOpt bool          `json:"sharedOpt,omitempty"` // one option slice value shared by all callers
+	ParentCB  bool          `json:"parentCB,omitempty"`  // callers derive their ctx from one parent ctx that carries a handler
+	ParentCap int           `json:"parentCap,omitempty"` // parentCB: number of handlers in the parent ctx, passed as a slice built with append (so it may have spare capacity)
+	Par       int           `json:"par,omitempty"`       // wfstraggler: number of parallel nodes (2|3)
+	Sched     []int         `json:"sched,omitempty"`     // interleaving given to the model
+	Seed      uint64        `json:"seed"`
 }
 
 // one observed call
@@ -968,6 +969,12 @@ func c09BuildRunner(c *c09Case) (c09Runner, error) {
 			return nil, err
 		}
 		return c09OptShareRunner(c, r), nil
+	case "branchmix":
+		r, err := c09BuildBranchMix(c)
+		if err != nil {
+			return nil, err
+		}
+		return c09BranchMixRunner(c, r), nil
 	case "inflight":
 		if c.FL != nil && c.FL.Hold != "" {
 			r, err := c09BuildHold(c)
